@@ -1,7 +1,10 @@
 """C13 — Python back end: conformance, round trip, and only DecodeError on bad input.
 
-Proof:  Pdlv/Thm/C13.lean — the reference (Pdlv.Ref) with its spec lemmas; size = length of the
-        reference encoding for root packets and structs.
+Proof:  Pdlv/Thm/C13.lean — the model of the parser / serializer python.rs emits (Pdlv.Py) agrees with the reference on
+        Py.wfBody / writes Ref.encode; Pdlv/Thm/C13_spec.lean — the model of the try-each-child specialization
+        (Pdlv.PySpec): whatever parse_all returns is reached by the reference's decode_partial with the same values, and
+        the parent is kept only when the reference accepts no child (python_specialization_is_sound,
+        python_keeps_the_parent_only_if_no_child_fits).
 Tie:    the module emitted by the pdlc built from /repo is imported in a child process (both
         endiannesses); serialize() vs Ref.encode, parse_all(serialize(v)) vs v, parse_all(b) vs the
         reference decoder on reference encodings, single-fault mutants, all prefixes and random strings;
@@ -155,6 +158,12 @@ def main(argv):
             # the Lean model of the parser python.rs emits (Pdlv.Py): compared with the emitted parser on every input
             mpy = be.model(i, T, [{"k": "pydecfull", "hex": s.hex()} for _, s in uniq])
             mpy = mpy if isinstance(mpy, list) else [None] * len(uniq)
+            # the Lean model of the try-each-child specialization (Pdlv.PySpec), for root packets with children
+            mspec = None
+            if not decl.get("parent_id") and any(x.get("parent_id") == T for x in types.decls.values()) and be.load(i):
+                rs = be.mdl.ask({"op": "inherit", "mode": "ideal", "cases": [{"k": "pyspec", "type": T, "hex": s.hex()} for _, s in uniq]}, timeout=300)
+                if rs and rs.get("status") == "ok":
+                    mspec = rs["out"]
             # theorem python_parser_agrees_with_reference: hypothesis on this layout, statement evaluated on the inputs
             hyp = be.model(i, T, [{"k": "len", "v": {}}])
             pywf = bool(isinstance(hyp, list) and hyp[0].get("pywf"))
@@ -168,8 +177,37 @@ def main(argv):
                         run.violation("corr", "theorem python_parser_agrees_with_reference contradicted by evaluation on %s (model bug)" % T,
                                       {"pdl": d["text"], "type": T, "input_hex": s.hex(), "corr": "thm:python_parser_agrees_with_reference"},
                                       found_input=False)
-            for (kind, s), m, mp in zip(uniq, mo, mpy):
+            for n_s, ((kind, s), m, mp) in enumerate(zip(uniq, mo, mpy)):
                 r = be.ask(i, T, "dec", s.hex())
+                if mspec is not None and r.get("r") in ("ok", "err"):
+                    ms = mspec[n_s]
+                    if ms.get("r") == "ok" and ms.get("wf"):
+                        # theorem python_specialization_is_sound, evaluated: the reference reaches the returned packet
+                        # with the returned values
+                        run.count("theorem_instances")
+                        run.hist("theorem_hypotheses", "PySpec.wfNode:True")
+                        if m.get("r") != "ok":
+                            okk = False
+                        elif ms.get("type") == T:
+                            okk = W.canon(ms.get("value")) == W.canon(m.get("value"))
+                        else:
+                            dn = be.model_down(i, T, ms["type"], m["value"])
+                            okk = bool(dn) and dn.get("r") == "ok" and W.canon(dn["value"]) == W.canon(ms.get("value"))
+                        if not okk:
+                            run.violation("corr", "theorem python_specialization_is_sound contradicted by evaluation on %s %s (model bug)" % (T, s.hex()[:40]),
+                                          {"pdl": d["text"], "type": T, "input_hex": s.hex(), "model": ms, "reference": m,
+                                           "corr": "thm:python_specialization_is_sound"}, found_input=False)
+                    if ms.get("r") in ("ok", "err"):
+                        same = ms.get("r") == r.get("r") and (r.get("r") != "ok" or (ms.get("type") == r.get("type") and
+                                                               W.canon(ms.get("value")) == W.canon(r.get("value"))))
+                        run.hist("py_specialization_model", ("agree:%s" % r.get("r")) if same else "disagree")
+                        if not same:
+                            run.violation("corr", "the model of the emitted Python specialization (Pdlv.PySpec) and the emitted parser disagree on %s %s: %s %s vs %s %s"
+                                          % (T, s.hex()[:40], ms.get("r"), ms.get("type"), r.get("r"), r.get("type")),
+                                          {"pdl": d["text"], "type": T, "input_hex": s.hex(), "python": r, "model": ms,
+                                           "corr": "corr:C13/py-specialization-model"}, found_input=False)
+                    else:
+                        run.hist("py_specialization_model", "not-modelled")
                 # (an exception that is not a DecodeError, a hang or a crash of the emitted parser is judged by the
                 #  property's own oracle below; the parser model has DecodeErrors only)
                 if mp is not None and r.get("r") in ("ok", "err") and not (mp.get("r") == "panic" and mp.get("h") == "badLayout"):
